@@ -38,6 +38,8 @@ def run(ctx) -> None:
              "made in the same loop iteration (never a cached or shared scope that would accumulate other components' variables)")
     ctx.rule("C03.R2-naming-agreement", "replica component names and replica references use the same format and index; "
                                         "indices run over range(count); variables['replica'] is the index")
+    ctx.rule("C03.R8-every-replicated-reference-registered", "in apply_replicate every reference whose producer is a replicated, non-aggregating "
+             "component is registered for rewriting: no other condition gates the registration")
     ctx.rule("C03.R3-apply-replicate", "a reference is treated as replicated only if its producer has a positive propagated count "
                                        "and is not aggregating; every component is emitted by one of the three branches")
     ctx.rule("C03.R5-relative-only-same-stage", "the relative spelling of a replicated producer is rewritten only for consumers in the producer's stage")
@@ -358,6 +360,34 @@ def run(ctx) -> None:
         ctx.ob("C03.R3-apply-replicate", a.ast, ok, "references to aggregating producers are not replicated" if ok else
                "a reference to an aggregating producer can be treated as replicated (the consumer would be copied past the aggregation point)",
                construct="replicated_refs.append <- is_aggregate is False")
+    # R8: the converse - nothing but "is this a reference to a replicated, non-aggregating component" decides whether a reference is
+    # registered: the tests that gate the registration are exactly those (plus "is it a component reference at all")
+    ref_loops = [n for n in source.walk_own(app) if isinstance(n, ast.For) and any(a.ast is x or any(a.ast is y for y in ast.walk(x))
+                                                                                  for a in adds for x in n.body)]
+    inner = ref_loops[-1] if ref_loops else None
+    allowed_ids = {n.id for (n, _) in t_notnone + t_pos + t_notagg}
+    for a in adds:
+        extra = []
+        for tn in cfg.nodes:
+            if tn.kind != "test" or tn.ast is None or tn.id in allowed_ids:
+                continue
+            if inner is not None and not any(tn.ast is x for x in ast.walk(inner)):
+                continue
+            for lab in ("T", "F"):
+                if match.only_via_edges(cfg, a, [(tn, lab)]):
+                    # "stage index is None => not a component reference" is the one other legitimate gate
+                    cp = match.compare_parts(tn.ast)
+                    if cp and isinstance(cp[2], ast.Constant) and cp[2].value is None and isinstance(cp[1], (ast.Is, ast.IsNot)):
+                        continue
+                    extra.append(tn)
+        ok = not extra
+        ctx.ob("C03.R8-every-replicated-reference-registered", a.ast, ok,
+               "whether a reference is registered for rewriting depends only on its producer being a replicated, non-aggregating component" if ok else
+               "a reference to a replicated producer is registered for rewriting only when additionally %s: the other references to that "
+               "producer (another file or method, e.g. 'Simulate/energies.csv:copy' next to 'Simulate:ref') keep the un-suffixed name - "
+               "copy i no longer consumes from copy i, an aggregator gets the copies for one reference only, and the leftover reference "
+               "names a component that does not exist after expansion" % short(extra[0].ast, 60),
+               construct="replicated_refs.append is gated by the replication tests only")
     # ref_replicate / is_aggregate come from replicate_instructions[(stage, producer)]
     emits = match.nodes_calling(cfg, lambda c: last_attr(c) == "append" and dotted(c.func.value) == OUT)
     outer = [n for n in cfg.nodes if n.kind == "for" and isinstance(n.ast.iter, ast.Name) and n.ast.iter.id == COMPS
